@@ -188,7 +188,8 @@ theorem revert_only_basis (fl : Flavour) (s : State) (i : Id) (hi : i ∉ ids s.
     split
     · exact hi
     · simp [hi, hr]
-  simp [hv]
+  show (if (unionNew (ids s.basis) [rootId]).contains i = true then _ else none) = none
+  rw [hv]; rfl
 
 /-- non-vacuity: a revert that has something to restore (a removed file comes back) -/
 example :
